@@ -35,7 +35,7 @@ man = dict(
                baseline_off_cmd='cd /repo && /venv/bin/python -m pytest -ra -q -p no:cacheprovider --timeout=900 --continue-on-collection-errors',
                source_commits=[], add_only=True),
     engines=[dict(name='vlib', path='vlib/', serves_properties=[c['property_id'] for c in checks],
-                  kind_free_text='VC generator (ast -> z3/cvc5) over the real source with sidecar contracts; run-time-contract bounded stand-in; Lean lemmas; Cython-parser front end')],
+                  kind_free_text='VC generator (ast -> z3/cvc5) over the real source with sidecar contracts; the same contracts (and observed contracts) evaluated by z3 on real executions (cross-check); run-time-contract bounded stand-in; Lean lemmas; Cython-parser front end')],
     checks=checks,
     notes=props.NOTES,
     not_applicable=na,
